@@ -1055,6 +1055,387 @@ fn gen_c04(o: &mut Out, r: &mut Rng, d: &GDict, tier: &str) {
     }
 }
 
+fn gen_c05(o: &mut Out, r: &mut Rng, d: &GDict, tier: &str) {
+    let thorough = tier == "thorough";
+    // (1) fault enumeration: for every corpus message and EVERY k in [0, frame length): a writer that accepts
+    // exactly k octets and then fails; delivery modes rotate (whole-buffer, 1-octet and 3-octet short writes,
+    // Interrupted on every 2nd / 3rd call, failure as an error or as Ok(0))
+    let mut corpus = corpus_messages(r, d);
+    for _ in 0..(if thorough { 60 } else { 10 }) {
+        corpus.push(message(r, d, 5, 3));
+    }
+    // padding 1, 2, 3 at the very end of the frame
+    for l in [1usize, 2, 3, 5, 6, 7] {
+        let mut m = header(r);
+        m.avps.push(GA { code: d.by_type(T_OCT)[0].code, vendor: None, flags: 0, v: GV::Oct(r.bytes(l)) });
+        corpus.push(m.clone());
+        let inner = m.avps[0].clone();
+        let mut m2 = header(r);
+        m2.avps.push(nest(d, r, 2, Some(inner)));
+        corpus.push(m2);
+    }
+    let modes: [(usize, usize, &str); 7] = [(0, 0, "err"), (1, 0, "err"), (3, 0, "zero"), (0, 2, "err"), (2, 3, "zero"), (0, 0, "zero"), (1, 2, "err")];
+    for m in corpus.iter() {
+        let n = m.encode(&mut None).len();
+        o.case(&format!("faults len={}", n));
+        let mut ls = vec![];
+        m.ops(r, &mut ls);
+        o.lines(&ls);
+        o.line("ench");
+        for k in 0..n + 2 {
+            let reps = if thorough || n < 200 { modes.len() } else { 2 };
+            for j in 0..reps {
+                let (short, intr, mode) = modes[(k + j) % modes.len()];
+                o.line(&format!("encw {} {} {} {}", k, short, intr, mode));
+            }
+        }
+    }
+    // (2) values the wire cannot carry: Times around both ends of the 32-bit 1900-based range, at top level and in groups
+    let times: [i64; 14] = [-2208988801, -2208988800, -2208988799, 0, 2085978495, 2085978496, 2085978497, 2208988800, 4294967296, -62135596800, 253402300799, -5000000000, 2524608000, -2208988800 - 86400];
+    let tdef = d.by_type(T_TIME)[0].clone();
+    for &t in times.iter() {
+        for nest_depth in [0usize, 1, 3] {
+            for nanos in [0u32, 999_999_999] {
+                o.case(&format!("time {} depth={}", t, nest_depth));
+                let a = GA { code: tdef.code, vendor: tdef.vendor, flags: 0x40, v: GV::Time(t, nanos) };
+                let mut m = header(r);
+                m.avps.push(avp_of(r, d, d.by_type(T_U32)[0], 0, 0));
+                m.avps.push(if nest_depth == 0 { a } else { nest(d, r, nest_depth, Some(a)) });
+                m.avps.push(avp_of(r, d, d.by_type(T_UTF8)[0], 0, 0));
+                let mut ls = vec![];
+                m.ops(r, &mut ls);
+                o.lines(&ls);
+                o.line("ench");
+                o.line("encw 100000 0 0 err");
+                o.line("encw 100000 1 2 zero");
+            }
+        }
+    }
+    // (3) lengths at and past 2^24: one AVP of 2^24-9 .. 2^24-7 value octets (AVP length 2^24-1, 2^24, 2^24+1);
+    // a message reaching exactly 2^24-4, 2^24, 2^24+4 with AVPs that are each small; the same inside a group
+    let oc = d.by_type(T_OCT)[0].code;
+    let big = |o: &mut Out, label: &str, parts: &[usize], grouped: bool| {
+        o.case(label);
+        o.line("new 272 4 0 1 2");
+        o.line("clear");
+        if grouped {
+            o.line("grp_new");
+        }
+        for p in parts {
+            o.line(&format!("val octn {} 5a", p));
+            if grouped {
+                o.line(&format!("grp_add_avp {} - 0", oc));
+            } else {
+                o.line(&format!("add_avp {} - 0", oc));
+            }
+        }
+        if grouped {
+            o.line(&format!("add_avp {} - 64", 9));
+        }
+        o.line("ench");
+        o.line("len");
+    };
+    let m24: usize = 1 << 24;
+    for dv in [9usize, 8, 7, 5, 4] {
+        big(o, &format!("avp value 2^24-{}", dv), &[m24 - dv], false);
+    }
+    // total = 20 + sum(8 + v_i) with v_i multiples of 4
+    for total in [m24 - 4, m24, m24 + 4] {
+        let body = total - 20;
+        let a = 8 * 1024 * 1024 - 8;
+        let rest = body - (8 + a) - 8;
+        big(o, &format!("message total {}", total), &[a, rest], false);
+    }
+    for dv in [16usize, 12, 8, 4] {
+        // a group whose own length crosses 2^24 while its members stay below
+        let half = (m24 - dv) / 2 - 8;
+        big(o, &format!("group near 2^24-{}", dv), &[half - half % 4, half - half % 4], true);
+    }
+}
+
+/* ---------- dictionary families ---------- */
+
+const TYPE_SPELLINGS: [&str; 24] = [
+    "Address", "IPv4", "IPv6", "DiameterIdentity", "DiameterURI", "Enumerated", "Float32", "Float64", "Grouped", "Integer32", "Integer64",
+    "OctetString", "Time", "Unsigned32", "Unsigned64", "UTF8String", "Foo", "utf8string", "UTF8String2", "", "IPFilterRule", "Unsigned16",
+    "Identity", "AddressIPv4",
+];
+const MUSTS: [Option<&str>; 13] = [None, Some("M"), Some("V,M"), Some("M,V"), Some("-"), Some("P,M,V"), Some(""), Some("m"), Some("MV"), Some("V"), Some("V,P"), Some("M,M"), Some(",M,")];
+
+fn doc_avp_line(name: &str, code: u32, vendor: Option<u32>, must: Option<&str>, ty: &str) -> String {
+    format!(
+        "avp {} {} {} {} {}",
+        hexd(name.as_bytes()),
+        code,
+        vend(vendor),
+        match must {
+            Some(m) => hexd(m.as_bytes()),
+            None => "~".into(),
+        },
+        hexd(ty.as_bytes())
+    )
+}
+
+fn gen_c14(o: &mut Out, r: &mut Rng, tier: &str) {
+    let thorough = tier == "thorough";
+    let codes = [1u32, 2, 3, 4294967295];
+    let vendors = [None, Some(0u32), Some(5), Some(10415)];
+    let names = ["A", "B", "C", "Twin", "Sess-Id", "名前 x"];
+    let app_names = ["App A", "App B", "Base"];
+    let cmd_names = ["Cmd-A", "Cmd-B", "CC"];
+    let rand_doc = |o: &mut Out, r: &mut Rng, mode: &str| {
+        o.line("doc_begin");
+        for _ in 0..1 + r.below(2) {
+            o.line(&format!("app {} {}", r.pick(&APPS), hexd(r.pick(&app_names).as_bytes())));
+            for _ in 0..r.below(3) {
+                o.line(&format!("cmd {} {}", r.pick(&CMDS), hexd(r.pick(&cmd_names).as_bytes())));
+            }
+            for _ in 0..r.below(5) {
+                { let n: &str = *r.pick(&names); let t: &str = *r.pick(&TYPE_SPELLINGS); o.line(&doc_avp_line(n, *r.pick(&codes), *r.pick(&vendors), *r.pick(&MUSTS), t)); }
+            }
+        }
+        o.line(&format!("doc_end {}", mode));
+    };
+    let n_hist = if thorough { 6000 } else { 500 };
+    for _ in 0..n_hist {
+        o.case("dict-history");
+        o.line("dreset");
+        let steps = 1 + r.below(if thorough { 30 } else { 12 });
+        for _ in 0..steps {
+            match r.below(10) {
+                0..=4 => {
+                    let ty = r.below(17) as usize;
+                    o.line(&format!("dadd {} {} {} {} {}", r.pick(&codes), vend(*r.pick(&vendors)), hexd(r.pick(&names).as_bytes()), ty_name(ty), r.below(2)));
+                }
+                5..=7 => rand_doc(o, r, "load"),
+                _ => {
+                    for _ in 0..r.below(4) {
+                        rand_doc(o, r, "stash");
+                    }
+                    o.line("dconstruct");
+                }
+            }
+            // the whole key / name universe after every step
+            for c in codes {
+                for v in vendors {
+                    o.line(&format!("dget {} {}", c, vend(v)));
+                }
+            }
+            for n in names {
+                o.line(&format!("dbyname {}", hexd(n.as_bytes())));
+            }
+            o.line(&format!("dbyname {}", hexd(b"absent")));
+            for n in app_names {
+                o.line(&format!("dapp {}", hexd(n.as_bytes())));
+            }
+            for n in cmd_names {
+                o.line(&format!("dcmd {}", hexd(n.as_bytes())));
+            }
+        }
+    }
+}
+
+/// a plausible value of a type name as the library understands it (used to fill the AVP on the wire)
+fn value_for(r: &mut Rng, ty: usize) -> GV {
+    if ty == T_GROUPED {
+        GV::Grp(vec![])
+    } else if ty < 16 {
+        leaf(r, ty, Some(4))
+    } else {
+        GV::Oct(vec![0, 0, 0, 7])
+    }
+}
+
+fn gen_c15(o: &mut Out, r: &mut Rng, _tier: &str, extra: &[String]) {
+    // (A) exhaustive table: type-name spelling x entry scope x wire vendor x presence of other-vendor twins
+    let scopes = [None, Some(5u32), Some(6u32)];
+    for tn in TYPE_SPELLINGS {
+        let ty = TY_NAMES.iter().position(|x| *x == tn).unwrap_or(16);
+        for scope in scopes {
+            for twins in [false, true] {
+                o.case(&format!("table type={:?} entry={} twins={}", tn, vend(scope), twins));
+                o.line("dreset");
+                o.line("doc_begin");
+                o.line(&format!("app 4 {}", hexd(b"T")));
+                o.line(&doc_avp_line("X", 500, scope, Some("M"), tn));
+                if twins {
+                    // the same code under other vendors, typed differently, and a neighbouring code
+                    for other in [Some(7u32), Some(4294967295)] {
+                        o.line(&doc_avp_line("Other", 500, other, None, "UTF8String"));
+                    }
+                    o.line(&doc_avp_line("Next", 501, scope, None, "Unsigned32"));
+                }
+                o.line("doc_end load");
+                for wire in [None, Some(5u32), Some(6u32), Some(7u32)] {
+                    let mut m = header(r);
+                    m.avps.push(GA { code: 500, vendor: wire, flags: 0x40, v: value_for(r, ty) });
+                    o.line(&format!("dec {}", hex(&m.encode(&mut None))));
+                    // nested inside a group too
+                    o.line(&format!("dget 500 {}", vend(wire)));
+                }
+            }
+        }
+    }
+    // (B) the shipped dictionaries, read independently from the XML: every definition is found under its exact key
+    // and name; every definition with a recognised type encodes and decodes a value of its type; the others are refused
+    for p in extra {
+        let (lines, d) = load_defs_file(p);
+        o.case(&format!("dictionary {}", p));
+        o.line("dreset");
+        o.lines(&lines);
+        for def in &d.defs {
+            o.case(&format!("shipped {} {}", def.code, vend(def.vendor)));
+            o.line(&format!("dget {} {}", def.code, vend(def.vendor)));
+            o.line(&format!("dget {} {}", def.code, vend(match def.vendor { Some(_) => None, None => Some(10415) })));
+            o.line(&format!("dbyname {}", hexd(def.name.as_bytes())));
+            let mut m = header(r);
+            if def.ty < 16 {
+                m.avps.push(avp_of(r, &d, def, 1, 2));
+                let mut ls = vec![];
+                m.ops(r, &mut ls);
+                o.lines(&ls);
+                o.line("rt");
+            } else {
+                m.avps.push(GA { code: def.code, vendor: def.vendor, flags: 0, v: GV::Oct(vec![1, 2, 3, 4]) });
+                o.line(&format!("dec {}", hex(&m.encode(&mut None))));
+            }
+        }
+    }
+}
+
+/// the definition `values().find(name)` meets first in key order (all vendor-less keys sort before vendor keys)
+fn first_by_name<'a>(d: &'a GDict, name: &str) -> Option<&'a GDef> {
+    d.defs.iter().filter(|x| x.name == name).min_by_key(|x| (x.vendor.is_some(), x.code, x.vendor.unwrap_or(0)))
+}
+
+fn gen_c16(o: &mut Out, r: &mut Rng, tier: &str, extra: &[String]) {
+    let thorough = tier == "thorough";
+    // dictionary *histories*: names that were retired by re-declaring their slot, names moved to another slot, twins;
+    // after every dictionary step every name of the universe is used to build an AVP
+    {
+        let codes = [1u32, 2, 3];
+        let vendors = [None, Some(0u32), Some(5)];
+        let names = ["A", "B", "C", "Twin"];
+        for _ in 0..(if thorough { 3000 } else { 300 }) {
+            o.case("retired names");
+            o.line("dreset");
+            o.line("new 272 4 0 1 2");
+            o.line("clear");
+            for _ in 0..2 + r.below(6) {
+                // unique-name discipline is NOT kept here on purpose; by-name picks are compared through the model's
+                // first-in-key-order rule, and a name no live definition carries must fail
+                let ty = *r.pick(&[T_U32, T_UTF8, T_OCT, T_I32]);
+                o.line(&format!("dadd {} {} {} {} {}", r.pick(&codes), vend(*r.pick(&vendors)), hexd(r.pick(&names).as_bytes()), ty_name(ty), r.below(2)));
+                // a message holds the dictionary it was created with: create it after the dictionary changed
+                o.line("new 272 4 0 1 2");
+                for n in names {
+                    o.line("enc");
+                    o.line("len");
+                    o.line("dump");
+                    o.line("val u32 7");
+                    o.line(&format!("add_by_name {}", hexd(n.as_bytes())));
+                    o.line("dump");
+                    o.line("new 272 4 0 1 2");
+                }
+            }
+        }
+    }
+    let mut dicts: Vec<(String, GDict, Vec<String>)> = vec![("dict0".into(), dict0(), vec![])];
+    for i in 0..(if thorough { 10 } else { 3 }) {
+        let mut d = rand_dict(r, 30);
+        // vendor id 0 and the maximal vendor id are ordinary vendor ids
+        d.add(GDef { code: 900 + i, vendor: Some(0), name: format!("VendorZero{}", i), ty: T_U32, m: true });
+        d.add(GDef { code: 901 + i, vendor: Some(4294967295), name: format!("VendorMax{}", i), ty: T_UTF8, m: false });
+        dicts.push((format!("rand{}", i), d, vec![]));
+    }
+    for p in extra {
+        let (lines, d) = load_defs_file(p);
+        dicts.push((p.clone(), d, lines));
+    }
+    for (i, (name, d, lines)) in dicts.iter().enumerate() {
+        o.case(&format!("dictionary {}", name));
+        if !lines.is_empty() {
+            o.line("dreset");
+            o.lines(lines);
+        } else if i % 2 == 1 {
+            o.line("dreset");
+            emit_doc(o, d, "load");
+        } else {
+            emit_dict(o.w, d);
+        }
+        // every name of the dictionary (exhaustive)
+        let mut names: Vec<String> = d.defs.iter().map(|x| x.name.clone()).collect();
+        names.sort();
+        names.dedup();
+        for n in &names {
+            let def = first_by_name(d, n).unwrap();
+            let ty = if def.ty < 16 { def.ty } else { T_OCT };
+            let val = if ty == T_GROUPED { GV::Grp(vec![avp(r, d, 0, 1)]) } else { leaf(r, ty, None) };
+            let h = header(r);
+            for via_avp in [false, true] {
+                o.case(&format!("twin name={}", n));
+                o.line(&format!("new {} {} {} {} {}", h.cmd, h.app, h.flags, h.hbh, h.e2e));
+                o.line("clear");
+                let mut ls = vec![];
+                val.ops(r, &mut ls);
+                o.lines(&ls);
+                if via_avp {
+                    o.line(&format!("avp_name {}", hexd(n.as_bytes())));
+                    o.line("add");
+                } else {
+                    o.line(&format!("add_by_name {}", hexd(n.as_bytes())));
+                }
+                o.line("dump");
+                o.line("enc");
+                // the same AVP from explicit numbers
+                o.line(&format!("new {} {} {} {} {}", h.cmd, h.app, h.flags, h.hbh, h.e2e));
+                let mut ls = vec![];
+                val.ops(r, &mut ls);
+                o.lines(&ls);
+                o.line(&format!("add_avp {} {} {}", def.code, vend(def.vendor), if def.m { 0x40 } else { 0 }));
+                o.line("enc");
+            }
+        }
+        // unknown names: failure changes nothing (AVP list, reported length, encoding)
+        let n_unknown = if thorough { 2000 } else { 200 };
+        for k in 0..n_unknown {
+            o.case("unknown name");
+            let m = message(r, d, 3, 2);
+            let mut ls = vec![];
+            m.ops(r, &mut ls);
+            o.lines(&ls);
+            o.line("enc");
+            o.line("len");
+            o.line("dump");
+            let bogus = match k % 6 {
+                0 => String::new(),
+                1 => format!("{} ", names[k % names.len()]),
+                2 => names[k % names.len()].to_lowercase() + "x",
+                3 => format!("No-Such-{}", r.below(100000)),
+                4 => names[k % names.len()][..names[k % names.len()].len().saturating_sub(1)].to_string(),
+                _ => { let n = 1 + r.below(12) as usize; text(r, n) }
+            };
+            if d.defs.iter().any(|x| x.name == bogus) || !bogus.is_char_boundary(bogus.len()) {
+                continue;
+            }
+            let v = leaf(r, T_U32, None);
+            let mut ls = vec![];
+            v.ops(r, &mut ls);
+            o.lines(&ls);
+            o.line(&format!("add_by_name {}", hexd(bogus.as_bytes())));
+            o.line("enc");
+            o.line("len");
+            o.line("dump");
+            // ... and the message still works afterwards
+            let a = avp(r, d, 1, 2);
+            let mut ls = vec![];
+            a.ops_add(r, &mut ls);
+            o.lines(&ls);
+            o.line("enc");
+        }
+    }
+}
+
 fn gen_c17(o: &mut Out, r: &mut Rng, tier: &str) {
     let thorough = tier == "thorough";
     let t4 = ["u32", "i32", "enum", "f32", "time", "ipv4"];
@@ -1248,6 +1629,13 @@ pub fn generate(family: &str, seed: u64, tier: &str, extra: &[String], w: &mut d
             gen_c03(&mut o, &mut r, &d0, tier);
         }
         "c17" => gen_c17(&mut o, &mut r, tier),
+        "c14" => gen_c14(&mut o, &mut r, tier),
+        "c15" => gen_c15(&mut o, &mut r, tier, extra),
+        "c16" => gen_c16(&mut o, &mut r, tier, extra),
+        "c05" => {
+            emit_dict(o.w, &d0);
+            gen_c05(&mut o, &mut r, &d0, tier);
+        }
         "c04" => {
             emit_dict(o.w, &d0);
             gen_c04(&mut o, &mut r, &d0, tier);
